@@ -132,6 +132,7 @@ static int new_root(const char *fmt, int i)
  * v: what the object owns, per kind.  When refs != NULL the non-owning pointers are resolved against the
  * registry: refs[root] is set for every root pointed into, *dangling counts pointers to nowhere. */
 struct rctx { unsigned char *refs; long dangling; int self; };
+static const char *ref_what = "?";
 
 static void ref_ptr(struct rctx *rc, const void *p)
    {
@@ -139,7 +140,7 @@ static void ref_ptr(struct rctx *rc, const void *p)
    if (!rc || !p) return;
    r = reg_find(p);
    if (r < 0) rc->dangling++;
-   else if (r != rc->self) rc->refs[r] = 1;
+   else if (r != rc->self) { rc->refs[r] = 1; if (getenv("BVP_REFDEBUG")) fprintf(stderr, "ref %s -> %s via %s\n", rootnames[rc->self], rootnames[r], ref_what); }
    }
 
 static void walk_tset(BufrTablesSet *s, long *v, struct rctx *rc, int root, int reg)
@@ -153,7 +154,7 @@ static void walk_tset(BufrTablesSet *s, long *v, struct rctx *rc, int root, int 
          v[K_ARRAY]++; v[K_ENTRYB] += n;
          if (reg) { reg_add(s->tableB, root); for (i = 0; i < n; i++) reg_add(*(EntryTableB **)arr_get(s->tableB, i), root); }
          }
-      else ref_ptr(rc, s->tableB);
+      else { ref_what = "tableB"; ref_ptr(rc, s->tableB); }
       }
    if (s->tableD)
       {
@@ -163,7 +164,7 @@ static void walk_tset(BufrTablesSet *s, long *v, struct rctx *rc, int root, int 
          v[K_ARRAY]++; v[K_ENTRYD] += n;
          if (reg) reg_add(s->tableD, root);
          }
-      else ref_ptr(rc, s->tableD);
+      else { ref_what = "tableD"; ref_ptr(rc, s->tableD); }
       }
    }
 
@@ -174,11 +175,11 @@ static void walk_tables(BUFR_Tables *t, long *v, struct rctx *rc, int root, int 
    walk_tset(&t->master, v, rc, root, reg);
    walk_tset(&t->local, v, rc, root, reg);
    if (t->tableB_cache) v[K_ARRAY]++;
-   if (rc && t->last_searched) ref_ptr(rc, t->last_searched);
+   if (rc && t->last_searched) { ref_what = "last_searched"; ref_ptr(rc, t->last_searched); }
    if (rc && t->tableB_cache)
       {
       int i, n = arr_count(t->tableB_cache);
-      for (i = 0; i < n; i++) ref_ptr(rc, *(EntryTableB **)arr_get(t->tableB_cache, i));
+      ref_what = "cache"; for (i = 0; i < n; i++) ref_ptr(rc, *(EntryTableB **)arr_get(t->tableB_cache, i));
       }
    }
 
@@ -200,9 +201,9 @@ static void walk_desc(BufrDescriptor *b, long *v, struct rctx *rc, int root, int
    if (b->meta)
       {
       v[K_RTMD]++;
-      if (rc) for (j = 0; j < b->meta->nb_qualifiers; j++) ref_ptr(rc, b->meta->qualifiers[j]);
+      if (rc) { ref_what = "qualifier"; for (j = 0; j < b->meta->nb_qualifiers; j++) ref_ptr(rc, b->meta->qualifiers[j]); }
       }
-   if (rc && b->etb) ref_ptr(rc, b->etb);
+   if (rc && b->etb) { ref_what = "etb"; ref_ptr(rc, b->etb); }
    }
 
 static void walk_descarr(BufrDescriptorArray a, long *v, struct rctx *rc, int root, int reg)
@@ -309,7 +310,7 @@ static void walk_all(long *v, unsigned char refs[MAXROOTS][MAXROOTS], long *dang
       if (cur_tmpl) ROOT("cur.tmpl%d", 0, walk_template(cur_tmpl, vv, prc, r, rg));
       if (cur_dts) ROOT("cur.dts%d", 0, walk_dataset(cur_dts, vv, prc, r, rg));
       if (bvp_dec_dts()) ROOT("dec.dts%d", 0, walk_dataset(bvp_dec_dts(), vv, prc, r, rg));
-      if (pass == 0) qsort(regs, nregs, sizeof(struct reg), reg_cmp);
+      if (pass == 0 && nregs > 0) qsort(regs, nregs, sizeof(struct reg), reg_cmp);
       }
    }
 
